@@ -84,7 +84,7 @@ func Main(c *run.Ctx) {
 		c.Floor("route:"+r, 1, 0)
 	}
 	c.Floor("canary pushes acknowledged and found intact", total/4, 0)
-	c.Floor("multi-portion bodies pushed while another client pushes", total/200, 0)
+	c.Floor("multi-portion bodies pushed while another client pushes", total/100, 0)
 	c.Floor("multi-portion bodies uploaded slowly while every INSERT fails", c.Pick(10, 200), 0)
 }
 
@@ -173,7 +173,7 @@ func Child(c *run.Ctx, name string) {
 				c.Cover("db-down big body", "answered 2xx (C01's subject)", 1)
 			}
 		}
-		if gi%100 == 57 {
+		if gi%50 == 7 {
 			// a body of several MiB (the parser hands it on in portions while it is still reading), whole or cut off
 			// near its end, while another client's well-formed pushes arrive: the portions already handed on are being
 			// copied into the shared batch while the parser works on the next one
